@@ -157,7 +157,7 @@ ENTRIES = {
              "hidden state). Trusted: Coq kernel, extraction, driver, mock patching + stack attribution, RecordingGenerator (self-tested same "
              "stream). Randomness bypassing numpy.random / python random is visible only through differing outputs. Known findings on the current "
              "tree (KNOWN_FINDINGS.json): the legacy Gibbs samplers draw from np.random.* and an unseeded default_rng() (call sites enumerated; "
-             "any other site is reported). The calculate_scores --seed defect was repaired (fix: 9b38441). The argparse option tables of the nine "
+             "any other site is reported). The calculate_scores --seed defect was repaired (fix: 9b38441), and so was analyze_model_evaluation's unread --seed (seaborn's bootstrap of two regression bands; main() is translated and proved to hand --seed to both plots, C18_source_cli_analyze_*; the pre-repair wrapper is refuted). The argparse option tables of the nine "
              "CLI wrappers are re-read from the source on every run (harness/argparse_reader.py, fail-closed) and C18_source_parser_* prove, per command, "
              "that every attribute the translated get_args / main reads is declared exactly once with the assumed kind, that --seed is an int option with a "
              "non-None default in the four randomised commands, that chunk / chain coordinates are ints and every --*-param goes through KVAppendAction; "
